@@ -25,7 +25,15 @@ class C11(Prop):
         return [{'prog': f10, 'ext': None},
                 {'prog': ['block', 'timeout', False, 8, ['block', 'ignore', False, 16, ['await', 30], 'cm'], 'cm'], 'ext': None},
                 {'prog': ['block', 'timeout', False, 16, ['block', 'timeout', False, 8, ['await', 30], 'coro'], 'cm'], 'ext': None},
-                {'prog': ['seq', ['block', 'ignore', True, -2, ['await', 6], 'cm'], ['await', 4]], 'ext': None}]
+                {'prog': ['seq', ['block', 'ignore', True, -2, ['await', 6], 'cm'], ['await', 4]], 'ext': None}] + [
+            # depth 3, the outermost deadline earlier than the middle one; the innermost block is left (normally, by its
+            # own timeout that is caught, by an ignored timeout) while the body goes on inside the middle block: the timer
+            # must then be armed for the EARLIEST enclosing deadline
+            {'prog': ['block', k1, False, 12, ['block', k2, False, 40, ['seq', inner, ['await', 60]], f2], f1], 'ext': None}
+            for k1 in ('timeout', 'ignore') for k2 in ('timeout', 'ignore') for f1, f2 in (('cm', 'cm'), ('coro', 'cm'))
+            for inner in (['block', 'timeout', False, 6, ['await', 2], 'cm'],
+                          ['try', ['block', 'timeout', False, 2, ['await', 8], 'cm'], ['TaskTimeout'], ['skip']],
+                          ['block', 'ignore', False, 2, ['await', 8], 'cm'])]
 
     def generate(self, rng, n, tier):
         for _ in range(n):
